@@ -38,6 +38,7 @@ type variant struct {
 	BudgetS  int    `json:"budget_s"`
 	Shards   int    `json:"shards"`
 	Iterate  bool   `json:"iterate"`
+	Delay    bool   `json:"delay"`
 }
 
 type harness struct {
@@ -338,6 +339,7 @@ func main() {
 		Distinct       int    `json:"distinct_outcomes"`
 		Exhaustive     bool   `json:"exhaustive"`
 		CapHit         string `json:"cap_hit,omitempty"`
+		BoundKind      string `json:"bound_kind"`
 	}
 	sumByVar := map[string]*varSummary{}
 	var order []string
@@ -358,7 +360,13 @@ func main() {
 		key := j.h.Name + "|" + j.v.Name
 		s := sumByVar[key]
 		if s == nil {
-			s = &varSummary{Harness: j.h.Name, Variant: j.v.Name, Bound: j.v.Bound, BoundCompleted: 1 << 30, Exhaustive: true}
+			s = &varSummary{Harness: j.h.Name, Variant: j.v.Name, Bound: j.v.Bound, BoundCompleted: 1 << 30, Exhaustive: true, BoundKind: "preemptions+timer-first+environment deviations (free choice at blocking points)"}
+			if j.v.Delay {
+				s.BoundKind = "delay bounding: every deviation from the default scheduler (first enabled thread) counts, including at blocking points"
+			}
+			if j.kind != "sched" {
+				s.BoundKind = "enumeration domain"
+			}
 			sumByVar[key] = s
 			order = append(order, key)
 			distinctByVar[key] = map[uint64]struct{}{}
@@ -509,7 +517,7 @@ func main() {
 			"map iteration over ordered keys is determinised (sorted); Go's random map order is not explored",
 			"sync.Pool is a deterministic LIFO emptied at the start of every execution",
 			"unsynchronised shared accesses are outside the scheduler's model (data races are the business of the separate -race pass)",
-			"verification build only: lock-striping tables shrunk (numSubLocks=64, numMediumLocks=64, numPubLocks=64), numSubDissolverWorkers=4, metrics code-string table 0..16 (getCodeLabel falls back to strconv); library goroutines outside the scheduler are off (metrics aggregation interval 0, no singleflight, no otter caches)",
+			"verification build only: lock-striping tables shrunk (numSubLocks=64, numMediumLocks=64, numPubLocks=64), numSubDissolverWorkers=2, numHubShards=1, metrics code-string table 0..16 (getCodeLabel falls back to strconv); library goroutines outside the scheduler are off (metrics aggregation interval 0, no singleflight, no otter caches)",
 		},
 		"wall_s":     time.Since(start).Seconds(),
 		"violations": unlisted,
